@@ -63,7 +63,7 @@ def build_doc(rng):
         out.append('<UADataType NodeId="ns=1;i=%d" BrowseName=%s><DisplayName>%s</DisplayName><References>%s</References></UADataType>'
                    % (dt_id, quoteattr("1:" + name), escape(shown), refs))
         if extra_prop is not None:
-            # ... or a value that is no definition at all (finding D-C17b, repaired: it used to be read as one)
+            # ... or a value that is no definition at all (finding D-C17c, repaired: it used to be read as one)
             note = rng.choice(["", "", '<Value><String xmlns="%s">hello</String></Value>' % T, '<Value><ListOfInt32 xmlns="%s"><Int32>7</Int32></ListOfInt32></Value>' % T])
             out.append('<UAVariable NodeId="ns=1;i=%d" BrowseName="1:Note%d" DataType="i=12"><DisplayName>Note</DisplayName><References><Reference ReferenceType="i=40">i=68</Reference></References>%s</UAVariable>' % (extra_prop, extra_prop, note))
         if kind == "strings":
